@@ -29,11 +29,11 @@ def parse_kind(tok):
   return tok, None
 
 
-def build_qkeras(kind, mvk, w, pfx):
+def build_qkeras(kind, mvk, w, pfx, alpha=None):
   q = _mods()["q"]
   if kind == "qbits":
     return q.quantized_bits(int(w[pfx + "_bits"]), int(w[pfx + "_int"]), 0,
-                            keep_negative=bool(w[pfx + "_signed"]))
+                            keep_negative=bool(w[pfx + "_signed"]), alpha=alpha)
   if kind == "qrelu":
     return q.quantized_relu(int(w[pfx + "_bits"]), int(w[pfx + "_int"]))
   if kind in ("po2", "relu_po2"):
@@ -43,11 +43,11 @@ def build_qkeras(kind, mvk, w, pfx):
     cls = q.quantized_po2 if kind == "po2" else q.quantized_relu_po2
     return cls(int(w[pfx + "_bits"]), mv)
   if kind == "ternary":
-    return q.ternary()
+    return q.ternary(alpha=alpha)
   if kind == "binary":
-    return q.binary(use_01=False)
+    return q.binary(use_01=False, alpha=alpha)
   if kind == "binary01":
-    return q.binary(use_01=True)
+    return q.binary(use_01=True, alpha=alpha)
   if kind == "float":
     return None
   raise ValueError(kind)
